@@ -300,6 +300,25 @@ pub fn exec_direct(store: &mut AnnotationStore, m: &Model, op: &Op) -> ExecResul
             let req: BuildItem<TextResource> = bi(&m.res_target(r).req);
             res(catch(|| store.remove_resource(req)), |_| None)
         }
+        Op::RemoveAnnotationsOn { r } => {
+            let req: BuildItem<TextResource> = bi(&m.res_target(r).req);
+            res(
+                catch(|| -> Result<(), StamError> {
+                    let handles: Vec<AnnotationHandle> = match store.resource(req) {
+                        Some(res) => res.annotations().map(|a| a.handle()).collect(),
+                        None => return Err(StamError::OtherError("resource not found")),
+                    };
+                    for h in handles {
+                        // a cascade of an earlier removal may already have taken it
+                        if store.annotation(h).is_some() {
+                            store.remove_annotation(h)?;
+                        }
+                    }
+                    Ok(())
+                }),
+                |_| None,
+            )
+        }
         Op::RemoveDataset { s } => {
             let req: BuildItem<AnnotationDataSet> = bi(&m.set_target(s).req);
             res(catch(|| store.remove_dataset(req)), |_| None)
